@@ -177,6 +177,16 @@ REJECT = [
     ('decode with errors=strict', 'def f(text):\n    return text.encode("utf8").decode("utf-8", "strict")\n',
      {'text': 'Str'}, 'Str'),
     ('decode with one argument', 'def f(text):\n    return text.encode("utf8").decode("utf-8")\n', {'text': 'Str'}, 'Str'),
+    ('loop that appends to the list it iterates',
+     'def f(text):\n    res = [text]\n    for x in res:\n        res.append(x)\n    return "".join(res)\n',
+     {'text': 'Str'}, 'Str'),
+    ('[0] of a list rebound inside a loop',
+     'def f(text):\n    bits = text.split("%")\n    res = [text]\n    for x in bits:\n        res = bits[5:]\n'
+     '    return res[0]\n', {'text': 'Str'}, 'Str'),
+    ('pair loop whose body appends to the walked list',
+     'def f(text):\n    bits = _ASCII_RE.split(text)\n    add = bits.append\n    res = [bits[0]]\n'
+     '    for i in range(1, len(bits), 2):\n        add(text)\n        res.append(bits[i])\n    return "".join(res)\n',
+     {'text': 'Str'}, 'Str'),
     ('to_unicode of a bytes', 'def f(text):\n    return to_unicode(text.encode("utf8"))\n', {'text': 'Str'}, 'Str'),
 ]
 
